@@ -42,6 +42,7 @@ type CallerSpec struct {
 	Kind      int   `json:"k"`   // 0 RawGet, 1 Get, 2 Empty, 3 Coprocessor
 	TimeoutMs int   `json:"to"`  // SendRequest time-out
 	CancelUs  int64 `json:"cu"`  // cancel the context after this many microseconds; <0 never
+	CtxUs     int64 `json:"dl"`  // the call's own context carries a deadline this many microseconds after its start; 0 none
 	StartUs   int64 `json:"su"`  // start delay
 	SlowMs    int   `json:"sl"`  // the server holds the response of this request for so long
 	Async     bool  `json:"as"`  // use SendRequestAsync (no timer of its own: bounded by the context only)
